@@ -451,6 +451,124 @@ def _satisfy_object(rng, schema, root, depth):
     return out
 
 
+_PAD_CHARS = ["a", "é", "\U0001F600", "e\u0301"[1], "日"]
+
+
+def _int_size(schema, key):
+    val = schema.get(key)
+    if isinstance(val, bool) or not isinstance(val, (int, float)) or val != val or abs(val) > 300:
+        return None
+    return int(val) if val == int(val) else None
+
+
+def boundary_probes(rng, schema, root, depth=0, limit=10):
+    """Values sitting exactly on, and one step off, every size / presence boundary the schema states: the
+    cases in which one keyword alone decides (`len == max`, `len == max + 1`, a required member taken away, one
+    item past the tuple, the only `contains` witness removed, one duplicate added)."""
+    schema = _deref(schema, root)
+    if not isinstance(schema, dict) or depth > 2:
+        return []
+    out = []
+
+    def base_of(kind):
+        spec = {k: v for k, v in schema.items() if k not in ("anyOf", "oneOf", "allOf", "not", "const", "enum")}
+        spec["type"] = kind
+        try:
+            return satisfy_once(rng, spec, root, depth + 1)
+        except (RecursionError, KeyError, IndexError, TypeError, ValueError):
+            return None
+
+    lo, hi = _int_size(schema, "minLength"), _int_size(schema, "maxLength")
+    if lo is not None or hi is not None:
+        pad = rng.choice(_PAD_CHARS)
+        for size in {n for n in (lo, (lo or 0) - 1, hi, None if hi is None else hi + 1) if n is not None and n >= 0}:
+            out.append(pad * size)
+            seed = base_of("string")
+            if isinstance(seed, str):
+                out.append((seed + pad * size)[:size] if len(seed) != size else seed)
+    lo, hi = _int_size(schema, "minItems"), _int_size(schema, "maxItems")
+    tuple_len = len(schema["items"]) if isinstance(schema.get("items"), list) else None
+    sizes = {n for n in (lo, (lo or 0) - 1, hi, None if hi is None else hi + 1) if n is not None and n >= 0}
+    if tuple_len is not None:
+        sizes |= {tuple_len, tuple_len + 1, max(0, tuple_len - 1)}
+    for size in sorted(sizes)[:6]:
+        spec = {k: v for k, v in schema.items() if k in ("items", "additionalItems")}
+        if spec.get("additionalItems") is False and tuple_len is not None and size > tuple_len:
+            spec["additionalItems"] = True
+        spec.update({"type": "array", "minItems": size, "maxItems": size})
+        try:
+            arr = _satisfy_array(rng, spec, root, depth + 1)
+        except (RecursionError, KeyError, IndexError, TypeError, ValueError):
+            continue
+        while len(arr) < size:
+            arr.append(len(arr) if schema.get("uniqueItems") else (copy.deepcopy(arr[-1]) if arr else 0))
+        out.append(arr[:size])
+    if any(key in schema for key in ("uniqueItems", "contains")):
+        seed = base_of("array")
+        if isinstance(seed, list):
+            if schema.get("uniqueItems") and seed:
+                member = rng.choice(seed)
+                out.append(seed + [copy.deepcopy(member)])
+                out.append(seed + [lookalike(rng, copy.deepcopy(member))])
+            if "contains" in schema:
+                try:
+                    kept = [m for m in seed if not refmodel.valid(schema["contains"], m, root)]
+                    out.append(kept)
+                    out.append(kept + [satisfy_once(rng, schema["contains"], root, depth + 1)])
+                except Exception:  # pylint: disable=broad-except
+                    pass
+    obj_keys = ("required", "minProperties", "maxProperties", "propertyNames", "dependencies")
+    if any(key in schema for key in obj_keys):
+        seed = base_of("object")
+        if isinstance(seed, dict):
+            for name in list(schema.get("required") or [])[:4]:
+                if isinstance(name, str) and name in seed:
+                    out.append({k: v for k, v in seed.items() if k != name})
+            lo, hi = _int_size(schema, "minProperties"), _int_size(schema, "maxProperties")
+            for size in {n for n in (lo, (lo or 0) - 1, hi, None if hi is None else hi + 1) if n is not None and n >= 0}:
+                obj = dict(list(seed.items())[:size])
+                extra = 0
+                while len(obj) < size and extra < 300:
+                    obj.setdefault("k%d" % extra, extra)
+                    extra += 1
+                out.append(obj)
+    if isinstance(schema.get("propertyNames"), (dict, bool)) or schema.get("additionalProperties") is False:
+        seed = base_of("object")
+        if isinstance(seed, dict):
+            for key in rng.sample(["", "a", "ab", "abcdefghij", "A", "1", "zz", "x_a", "é", "a b", "k" * 12], 4):
+                if key not in seed:
+                    out.append({**copy.deepcopy(seed), key: rng.choice([0, "a", None, True])})
+    if isinstance(schema.get("dependencies"), dict):
+        seed = base_of("object")
+        if isinstance(seed, dict):
+            for key, dep in list(schema["dependencies"].items())[:3]:
+                if isinstance(dep, list) and dep:
+                    full = copy.deepcopy(seed)
+                    full.setdefault(key, 1)
+                    for name in dep:
+                        if isinstance(name, str):
+                            full.setdefault(name, 1)
+                    out.append(full)
+                    gone = rng.choice([name for name in dep if isinstance(name, str)] or [key])
+                    out.append({k: v for k, v in full.items() if k != gone})
+    if isinstance(schema.get("properties"), dict) and depth < 2:
+        # the same one level down, inside an otherwise valid object
+        names = [n for n in schema["properties"] if isinstance(_deref(schema["properties"][n], root), dict)]
+        rng.shuffle(names)
+        for name in names[:3]:
+            inner = boundary_probes(rng, schema["properties"][name], root, depth + 1, limit=3)
+            seed = base_of("object") if inner else None
+            for probe in inner:
+                if isinstance(seed, dict):
+                    out.append({**copy.deepcopy(seed), name: probe})
+    if isinstance(schema.get("items"), dict) and depth < 2:
+        for probe in boundary_probes(rng, schema["items"], root, depth + 1, limit=3):
+            out.append([probe])
+    if len(out) > limit:
+        out = rng.sample(out, limit)
+    return out
+
+
 def satisfy(rng, schema, root, tries=4, dev_kwargs=None):
     """Try to produce a valid value; the model decides, the solver only proposes."""
     last = None
@@ -532,7 +650,7 @@ def mutate(rng, value, keys=None):
     return random_value(rng, 1)
 
 
-def batch_for_schema(rng, schema, root=None, count=8, lookalikes=True):
+def batch_for_schema(rng, schema, root=None, count=8, lookalikes=True, boundaries=True):
     """Mixed batch: valid-by-construction attempts, their one-point mutants,
     lookalike swaps and unconstrained values."""
     root = schema if root is None else root
@@ -569,6 +687,11 @@ def batch_for_schema(rng, schema, root=None, count=8, lookalikes=True):
                 except Exception:  # pylint: disable=broad-except
                     base[key] = 1
             out.append(base)
+    if boundaries:
+        try:
+            out += boundary_probes(rng, schema, root)
+        except (RecursionError, KeyError, IndexError, TypeError, ValueError):
+            pass
     if rng.random() < 0.5:
         # a sweep of small numbers / short strings: cheap, and decisive for overlapping compositions
         out += rng.sample([-3, -1, 0, 1, 2, 3, 4, 5, 6, 7, 8, 9, 10, 11, 12, 2.0, 4.5, "a", "ab", "abc", "abab", "b"], k=6)
